@@ -52,9 +52,9 @@ T("C19", "twin-ralston-alpha", RK, "alpha = 2.0 / 3.0", "alpha = 3.0 / 4.0", "an
 
 # ------------------------------------------------------------------------------------------------ C14
 M("C14", "key-renamed", MP, 'for attr in ["qnidx", "qntot", "qn", "to_right"] + other_attrs:', 'for attr in ["qnidx", "qn_tot", "qn", "to_right"] + other_attrs:',
-  ["keys-read-written"], "key renamed in dump only (getattr would fail at run time, key set disagrees)")
+  ["chain-round-trip"], "key renamed in dump only (getattr would fail at run time, key set disagrees)")
 M("C14", "coeff-not-dumped", MPS, 'super().dump(fname, other_attrs=["coeff"])', "super().dump(fname, other_attrs=[])", ["coeff"], "coeff no longer dumped")
-M("C14", "version-bump", MP, 'data_dict["version"] = "0.4"', 'data_dict["version"] = "0.5"', ["version-accepted"], "version bumped without a reader branch")
+M("C14", "version-bump", MP, 'data_dict["version"] = "0.4"', 'data_dict["version"] = "0.5"', ["chain-round-trip"], "version bumped without a reader branch")
 M("C14", "cross-wired", MP, 'mp.qnidx = int(npload["qnidx"])\n        mp.qntot = npload["qntot"].astype(int)\n        mp.to_right = bool(npload["to_right"])\n        return mp\n\n    def __init__',
   'mp.qnidx = int(npload["qnidx"])\n        mp.qntot = npload["qntot"].astype(int)\n        mp.to_right = bool(npload["qnidx"])\n        return mp\n\n    def __init__', ["MatrixProduct"],
   "to_right restored from the wrong key")
